@@ -399,7 +399,13 @@ func randInt(r *hx.Rand, maxbits int) *big.Int {
 	return z
 }
 
-func floatPool() []float64 {
+func floatPool(small bool) []float64 {
+	if small {
+		return []float64{0, math.Copysign(0, -1), math.SmallestNonzeroFloat64, -math.Float64frombits(0x000fffffffffffff), 0.5, -1.5, 2.5, 0.1, -3.7, 1, -2,
+			1e300, -math.MaxFloat64, math.Inf(1), math.Inf(-1), math.NaN(), 4503599627370496.5, 2147483648, -2147483649, 4294967296.5,
+			9007199254740992, 9007199254740994, -9007199254740992, 9223372036854775808, math.Nextafter(9223372036854775808, 0), -9223372036854775808,
+			math.Nextafter(-9223372036854775808, math.Inf(-1)), 18446744073709551616, math.Nextafter(1, 2), 1e22}
+	}
 	p := []float64{0, math.Copysign(0, -1), math.SmallestNonzeroFloat64, -math.SmallestNonzeroFloat64,
 		math.Float64frombits(0x000fffffffffffff), math.Float64frombits(0x0010000000000000),
 		0.5, -0.5, 1.5, -1.5, 2.5, -2.5, 0.1, -3.7, 1, -1, 2, 3, 1e300, -1e300, math.MaxFloat64, -math.MaxFloat64,
@@ -1034,7 +1040,7 @@ func main() {
 	compileWith7(templates)
 
 	ints := intPool(*small)
-	floats := floatPool()
+	floats := floatPool(*small)
 
 	// 1. integer operators: full ordered product of the boundary pool, then random pairs
 	for _, x := range ints {
@@ -1085,6 +1091,21 @@ func main() {
 		for _, x := range ints {
 			intFloatCompare(x, f)
 			mixedArith(x, f)
+		}
+	}
+	// the float overflow boundary: the largest finite float is 2^1024 - 2^971; ints from
+	// 2^1024 - 2^970 on round to an infinity and must be rejected by conversions
+	maxFloat := new(big.Int).Sub(pow2(1024), pow2(971))
+	firstInf := new(big.Int).Sub(pow2(1024), pow2(970))
+	for _, h := range []*big.Int{pow2(1023), add(pow2(1023), -1), maxFloat, add(maxFloat, 1), add(firstInf, -1), firstInf, pow2(1024), add(pow2(1024), 1), pow2(1100), pow2(2000)} {
+		for _, x := range []*big.Int{h, neg(h)} {
+			conversions(x)
+			intTrueDiv(x, big.NewInt(3))
+			intTrueDiv(big.NewInt(3), x)
+			for _, f := range []float64{0.5, math.MaxFloat64, -math.MaxFloat64, math.Inf(1), math.Inf(-1), math.NaN(), 1e308, math.Nextafter(math.MaxFloat64, 0), 0} {
+				intFloatCompare(x, f)
+				mixedArith(x, f)
+			}
 		}
 	}
 	for i := 0; i < *nrand; i++ {
